@@ -586,7 +586,11 @@ func c21Check(w *c21World, c *c21Case, o *c21Obs) (viol []c21V, nontriv, outcome
 		transport = "websocket"
 	}
 	sel := "none"
-	if len(o.out) >= 2 {
+	if c.WS {
+		// what the client-side reader collected before the close handshake is not a
+		// deterministic function of the case; only server-side observations are used
+		sel = "ws"
+	} else if len(o.out) >= 2 {
 		sel = fmt.Sprintf("m%02x", o.out[1])
 		if o.out[1] == 2 && len(o.out) >= 4 {
 			sel += fmt.Sprintf("-st%02x", o.out[3])
@@ -601,7 +605,7 @@ func c21Check(w *c21World, c *c21Case, o *c21Obs) (viol []c21V, nontriv, outcome
 	}
 	if cfg.enabled && len(o.execs) > 0 && !presented {
 		viol = append(viol, c21V{
-			fmt.Sprintf("C21/unauthenticated-command/%s/%s/%s", transport, cfg.name, executed),
+			fmt.Sprintf("C21/unauthenticated-command/%s/%s/%s/%s", transport, cfg.name, executed, strings.ReplaceAll(how, "+", "-")),
 			fmt.Sprintf("authentication enabled (users: %s) but %s executed %v for a client that presented %s: stream %s cuts %v basic %q; server wrote %x (method selection %s)",
 				cfg.name, transport, o.execs, how, c.In, c.Cuts, c.Basic, o.out, sel)})
 	}
@@ -728,7 +732,13 @@ func TestVerif_C21(t *testing.T) {
 			if !sampled[outcome] && len(sampled) < 40 {
 				sampled[outcome] = true
 				if len(sampled)%5 == 1 {
-					r.Sample(map[string]any{"case": c, "executed": o.execs, "server_wrote": hex.EncodeToString(o.out), "config": w.cfg.name})
+					smp := map[string]any{"case": c, "executed": o.execs, "config": w.cfg.name}
+					if !c.WS {
+						smp["server_wrote"] = hex.EncodeToString(o.out)
+					} else {
+						smp["http_status"] = o.wsHTTP
+					}
+					r.Sample(smp)
 				}
 			}
 		}
